@@ -360,7 +360,7 @@ Definition bs_discard (s : wstate) : wstate * out := (set_flags s true (ws_final
 (* StorageCar.Finalize (repaired: the CARv1 branch used to return without closing;
    notes/fixes/C04-storage-v1-finalize-closes.patch) *)
 Definition st_finalize (s : wstate) : wstate * out :=
-  if ws_finalized s then (s, OErr EOther)          (* sticky write error (C16), checked first *)
+  if ws_finalized s then (set_flags s true true, OErr EOther)   (* sticky write error (C16): reported, and the store is closed *)
   else if ws_closed s then (s, OErr EOther)
   else if w_v1 (ws_opts s) then (set_flags s true (ws_finalized s), ONil)
   else store_finalize (set_flags s true (ws_finalized s)).
